@@ -225,6 +225,12 @@ class PathRun:
         solver, r = self.solve()
         if r == z3.unsat:
             raise Infeasible()
+        if r == z3.unknown and self.explorer.use_cvc5:
+            # reaching this point may be impossible for reasons only the string solver sees
+            r2, secs2 = cvc5_check(solver, self.explorer.cvc5_seconds)
+            smt.STATS.add(smt.Query(name, r2, secs2, "cvc5", "reachability"))
+            if r2 == "unsat":
+                raise Infeasible()
         model = None
         wit = None
         m = None
